@@ -127,6 +127,8 @@ impl Compactor {
 			.collect();
 
 		drop(levels);
+		#[cfg(surrealkv_verif)]
+		crate::verif::yp("compact:picked");
 
 		// Create new table
 		let new_table_id = self.options.level_manifest.read().unwrap().next_table_id();
@@ -155,8 +157,12 @@ impl Compactor {
 			None
 		};
 
+		#[cfg(surrealkv_verif)]
+		crate::verif::yp("compact:before_manifest");
 		// Update manifest - this will commit the guard on success
 		self.update_manifest(input, new_table, &mut guard)?;
+		#[cfg(surrealkv_verif)]
+		crate::verif::yp("compact:before_cleanup");
 
 		self.cleanup_old_tables(input);
 
@@ -179,6 +185,8 @@ impl Compactor {
 		// This is a snapshot of the snapshot list at the start of compaction.
 		// Any snapshots created during compaction will be handled by the next compaction.
 		let snapshots = self.options.snapshot_tracker.get_all_snapshots();
+		#[cfg(surrealkv_verif)]
+		crate::verif::yp("compact:snapshots_captured");
 
 		// Create a compaction iterator that filters tombstones and respects snapshots
 		let max_level = self.options.lopts.level_count - 1;
